@@ -112,8 +112,9 @@ Inductive change :=
 | Add (k v : N)     (* add_phrase: rejected when the key is visible *)
 | Rem (k : N).      (* remove_phrase *)
 
+(* add_phrase / update_phrase lift the tombstone of the key they write (fix of the re-add-after-remove defect of C09) *)
 Definition do_upd (k v : N) (m : mem) : mem :=
-  mkMem (m_trie m) ((k, v) :: del k (m_btree m)) (m_grave m) (m_handle m) true.
+  mkMem (m_trie m) ((k, v) :: del k (m_btree m)) (filter (fun x => negb (N.eqb x k)) (m_grave m)) (m_handle m) true.
 
 Definition do_change (c : change) (m : mem) : mem :=
   match c with
